@@ -52,7 +52,7 @@ func init() {
 			c.floor("FRAME", 30)
 			c.runAbsorption("ABSORB", append(c.libPkgs()[:3:3], c.fixturePkg("g")), c.fileFilter("transform.go", "matrix.go", "squeeze.go"))
 			c.floor("ABSORB", 10)
-			c.runFirstIter("FIRSTITER", c.libPkgs()[:3], nil)
+			c.runFirstIter("FIRSTITER", append(c.libPkgs()[:3:3], c.fixturePkg("g")), nil)
 			c.floor("FIRSTITER", 2)
 			c.runSignMap("SIGNMAP", append(c.libPkgs()[:3:3], c.fixturePkg("g")))
 			c.floor("SIGNMAP", 0)
